@@ -565,6 +565,8 @@ def _range_of(m, st, rg, n, kind):
     elif kind == 'RangeFull': a_, b_ = IntV(0, 'usize'), IntV(n, 'usize')
     elif kind == 'RangeInclusive':
         a_, b_ = rg.f[0], binop('Add', rg.f[1], IntV(1, 'usize'))
+    elif kind == 'RangeToInclusive':
+        a_, b_ = IntV(0, 'usize'), binop('Add', rg.f[0], IntV(1, 'usize'))
     else: raise Inconclusive('range kind ' + kind)
     a = conc_int(a_); b = conc_int(b_)
     if a is None: a = _conc_idx(m, st, a_, n + 1)
@@ -754,6 +756,9 @@ class BinSearch(Native):
 def c_into_iter_identity(m, st, f, a):
     x = a[0]
     if isinstance(sv(x), Iter) or hasattr(sv(x), 'is_iterator'): return x
+    t = re.match(r'^<(.*) as IntoIterator>::into_iter$', f).group(1)
+    if not re.match(r'^(&|Vec<|\[|HashMap|std::collections|VecDeque|Option|std::option)', t):
+        return x          # every Iterator is its own IntoIterator
     return NotImplemented
 
 
@@ -791,8 +796,8 @@ def c_iter_adapt(m, st, f, a):
     op = re.search(r' as Iterator>::(\w+)', f).group(1)
     base = sv(it) if isinstance(it, Ref) else it
     if not isinstance(base, Iter):
-        if hasattr(base, 'as_iter'): base = base.as_iter(m, st)
-        else: raise Inconclusive('iterator adaptor %s on %r' % (op, base))
+        base = crate_iter(m, f, it)
+        if base is None: raise Inconclusive('iterator adaptor %s on %r' % (op, sv(it)))
     if op == 'by_ref': return a[0]
     if op == 'rev':
         if base.ops: raise Inconclusive('rev after adaptors')
@@ -830,7 +835,12 @@ class IterDriver(Native):
         if self.waiting is not None:
             raise Inconclusive('IterDriver stepped while waiting')
         if not self.have:
-            if it.pos >= len(it.items) or self.done:
+            if self.done: return self.finish(m, st)
+            if it.src is not None:
+                self.waiting = 'pull'
+                m.call_fn(st, it.src[1], [it.src[0]], ('native',))
+                return
+            if it.pos >= len(it.items):
                 return self.finish(m, st)
             self.cur = it.items[it.pos]; it.pos += 1
             self.stage = 0; self.have = True
@@ -869,6 +879,12 @@ class IterDriver(Native):
         if self.waiting == 'consume':
             self.waiting = None
             return self.after_consume(m, st, v)
+        if self.waiting == 'pull':
+            self.waiting = None
+            if disc_of(m, st, v) == 0: self.done = True
+            else:
+                self.cur = payload0(v); self.stage = 0; self.have = True
+            return
         op = self.waiting; self.waiting = None
         if op == 'map': self.cur = v; self.stage += 1
         elif op == 'inspect': self.stage += 1
@@ -954,11 +970,22 @@ class IterDriver(Native):
         m.deliver(st, self.ret, r)
 
 
-def drive_iter(m, st, it, mode, arg):
+def crate_iter(m, f, it):
+    """wrap a crate-defined iterator value (its `next` is interpreted from MIR)"""
+    v = sv(it) if isinstance(it, Ref) else it
+    if isinstance(v, Agg) and v.ty and v.ty not in ('Vec', 'RefCell', 'OnceCell'):
+        mm = re.match(r'^<(.*) as Iterator>::', f)
+        ty = mm.group(1) if mm else v.ty
+        r = it if isinstance(it, Ref) else Ref(Cell(v))
+        return Iter([], 0, (), 0, (r, '<%s as Iterator>::next' % ty))
+    return None
+
+
+def drive_iter(m, st, it, mode, arg, fname=''):
     base = sv(it) if isinstance(it, Ref) else it
     if not isinstance(base, Iter):
-        if hasattr(base, 'as_iter'): base = base.as_iter(m, st)
-        else: raise Inconclusive('iterator consumer %s on %r' % (mode, base))
+        base = crate_iter(m, fname, it)
+        if base is None: raise Inconclusive('iterator consumer %s on %r' % (mode, sv(it)))
     d = IterDriver(base, mode, arg, m.cur_ret)
     st.frames.append(d)
     return PUSHED
@@ -968,7 +995,7 @@ def drive_iter(m, st, it, mode, arg):
 def c_iter_next(m, st, f, a):
     it = sv(a[0])
     if isinstance(it, Iter):
-        if not it.ops:
+        if not it.ops and it.src is None:
             if it.pos < len(it.items):
                 x = it.items[it.pos]; it.pos += 1; return some(x)
             return none()
@@ -986,17 +1013,18 @@ def c_iter_next_back(m, st, f, a):
 
 
 @contract(r' as Iterator>::for_each::<', 8)
-def c_iter_for_each(m, st, f, a): return drive_iter(m, st, a[0], 'for_each', a[1])
+def c_iter_for_each(m, st, f, a): return drive_iter(m, st, a[0], 'for_each', a[1], f)
 
 
 @contract(r' as Iterator>::(any|all|find|position|find_map)::<', 8)
 def c_iter_any(m, st, f, a):
-    return drive_iter(m, st, a[0], re.search(r'Iterator>::(\w+)', f).group(1), a[1])
+    return drive_iter(m, st, a[0], re.search(r'Iterator>::(\w+)', f).group(1), a[1], f)
 
 
 @contract(r' as Iterator>::fold::<', 8)
 def c_iter_fold(m, st, f, a):
     base = sv(a[0]) if isinstance(a[0], Ref) else a[0]
+    if not isinstance(base, Iter): base = crate_iter(m, f, a[0])
     if not isinstance(base, Iter): raise Inconclusive('fold on %r' % (base,))
     d = IterDriver(base, 'fold', a[2], m.cur_ret); d.acc = a[1]
     st.frames.append(d); return PUSHED
@@ -1004,12 +1032,12 @@ def c_iter_fold(m, st, f, a):
 
 @contract(r' as Iterator>::(count|last|max|min)$', 8)
 def c_iter_count(m, st, f, a):
-    return drive_iter(m, st, a[0], re.search(r'Iterator>::(\w+)$', f).group(1), None)
+    return drive_iter(m, st, a[0], re.search(r'Iterator>::(\w+)$', f).group(1), None, f)
 
 
 @contract(r' as Iterator>::sum::<(\w+)>$', 8)
 def c_iter_sum(m, st, f, a):
-    return drive_iter(m, st, a[0], 'sum', re.search(r'sum::<(\w+)>$', f).group(1))
+    return drive_iter(m, st, a[0], 'sum', re.search(r'sum::<(\w+)>$', f).group(1), f)
 
 
 @contract(r' as Iterator>::collect::<(.*)>$', 8)
@@ -1032,10 +1060,10 @@ def c_iter_collect(m, st, f, a):
     else: raise Inconclusive('collect into ' + tgt)
     it = a[0]
     base = sv(it) if isinstance(it, Ref) else it
-    if isinstance(base, Iter) and not base.ops:
+    if isinstance(base, Iter) and not base.ops and base.src is None:
         out = base.items[base.pos:]; base.pos = len(base.items)
         return mk(out) if mk else vec(out)
-    return drive_iter(m, st, it, 'collect', mk)
+    return drive_iter(m, st, it, 'collect', mk, f)
 
 
 @contract(r'^std::iter::repeat::<')
@@ -1122,7 +1150,26 @@ def c_default_prim(m, st, f, a):
     if t in INT_TYPES: return IntV(0, t)
     if t == 'bool': return False
     if t in ('std::string::String', 'String', '&str'): return mkstr('')
+    if t.startswith('Rope<'): return RopeV([])
+    if re.match(r'^[A-Z][A-Za-z0-9]?$', t):
+        rt = generic_runtime_type(m, st, t)
+        if rt == 'str': return mkstr('')
+        if rt == 'Rope': return RopeV([])
     return NotImplemented
+
+
+def generic_runtime_type(m, st, param):
+    """runtime type bound to generic parameter `param` in the calling frame, read off an argument declared with that type"""
+    for fr in reversed(st.frames):
+        if fr.native: continue
+        for i, ty in enumerate(fr.body.arg_tys):
+            t = ty.replace('&mut ', '').replace('&', '').strip()
+            if t == param:
+                v = fr.local(i + 1).v
+                rt = m.runtime_type(v)
+                if rt: return rt
+        # closures see the parameter through their parent function: keep walking down the stack
+    return None
 
 
 @contract(r'^(std::hint|core::hint)::(black_box|assert_unchecked|unreachable_unchecked)')
@@ -1133,3 +1180,94 @@ def c_hint(m, st, f, a):
 
 @contract(r'^(std::)?(panicking|rt)::(panic|panic_fmt|begin_panic|panic_display|panic_nounwind|assert_failed)|^core::panicking::|^std::rt::begin_panic|::panicking::(panic|panic_fmt|panic_explicit|unreachable_display|assert_failed)')
 def c_panic(m, st, f, a): raise Panic('explicit panic: ' + f)
+
+
+@contract(r'^std::ops::RangeInclusive::<.*>::new$', 3)
+def c_range_incl_new(m, st, f, a): return Agg([a[0], a[1], False], 'RangeInclusive')
+
+
+@contract(r'^<std::ops::RangeInclusive<(u32|usize|u64|i32|i64)> as IntoIterator>::into_iter$', 3)
+def c_range_incl_into_iter(m, st, f, a): return a[0]
+
+
+@contract(r'^<std::ops::RangeInclusive<(u32|usize|u64|i32|i64)> as Iterator>::next$', 3)
+def c_range_incl_next(m, st, f, a):
+    r = deref(a[0]); lo, hi, done = r.f
+    if done is True: return none()
+    if bool_val(m, st, binop('Lt', lo, hi)):
+        r.f[0] = binop('Add', lo, IntV(1, lo.ty)); return some(lo)
+    if bool_val(m, st, binop('Eq', lo, hi)):
+        r.f[2] = True; return some(lo)
+    return none()
+
+
+# ---------------------------------------------------------------------------------------------- HashMap (finite association list)
+def key_eq(m, st, a, b):
+    a, b = sv(a), sv(b)
+    if isinstance(a, Enum) and a.ty == 'Cow': a = sv(payload0(a, disc_of(m, st, a)))
+    if isinstance(b, Enum) and b.ty == 'Cow': b = sv(payload0(b, disc_of(m, st, b)))
+    if isinstance(a, StrV) and isinstance(b, StrV): return bool_val(m, st, str_eq(a, b))
+    if isinstance(a, IntV) and isinstance(b, IntV): return bool_val(m, st, binop('Eq', a, b))
+    if isinstance(a, Agg) and isinstance(b, Agg) and len(a.f) == len(b.f):
+        return all(key_eq(m, st, x, y) for x, y in zip(a.f, b.f))
+    if isinstance(a, bool) or isinstance(b, bool): return bool_val(m, st, binop('Eq', a, b))
+    raise Inconclusive('map key comparison of %r and %r' % (a, b))
+
+
+@contract(r'^<(HashMap|std::collections::HashMap)<.*> as Default>::default$|^(HashMap|std::collections::HashMap)::<.*>::(new|with_hasher|with_capacity_and_hasher|default)$', 3)
+def c_map_default(m, st, f, a): return PyMap([])
+
+
+@contract(r'^HashMap::<.*>::(get|get_mut)::<', 3)
+def c_map_get(m, st, f, a):
+    r = a[0]; mp = deref(r)
+    for i, (k, v) in enumerate(mp.entries):
+        if key_eq(m, st, k, a[1]): return some(MapValRef(r, i))
+    return none()
+
+
+def MapValRef(r, i):
+    # value cells live inside the PyMap entries list; give out a reference to a cell that aliases the entry
+    mp = deref(r)
+    k, v = mp.entries[i]
+    if not isinstance(v, _Boxed):
+        v = _Boxed(Cell(v)); mp.entries[i] = (k, v)
+    return Ref(v.cell)
+
+
+class _Boxed:
+    __slots__ = ('cell',)
+
+    def __init__(self, cell): self.cell = cell
+
+    def clone_with(self, cl): return _Boxed(cl.cell(self.cell))
+
+
+def _unbox(v): return v.cell.v if isinstance(v, _Boxed) else v
+
+
+@contract(r'^HashMap::<.*>::contains_key::<', 3)
+def c_map_contains(m, st, f, a):
+    mp = deref(a[0])
+    return any(key_eq(m, st, k, a[1]) for k, _ in mp.entries)
+
+
+@contract(r'^HashMap::<.*>::len$', 3)
+def c_map_len(m, st, f, a): return IntV(len(deref(a[0]).entries), 'usize')
+
+
+@contract(r'^HashMap::<.*>::is_empty$', 3)
+def c_map_is_empty(m, st, f, a): return len(deref(a[0]).entries) == 0
+
+
+@contract(r'^HashMap::<.*>::insert$', 3)
+def c_map_insert(m, st, f, a):
+    mp = deref(a[0])
+    for i, (k, v) in enumerate(mp.entries):
+        if key_eq(m, st, k, a[1]):
+            old = _unbox(v); mp.entries[i] = (k, a[2]); return some(old)
+    mp.entries.append((a[1], a[2])); return none()
+
+
+@contract(r'^HashMap::<.*>::clear$', 3)
+def c_map_clear(m, st, f, a): deref(a[0]).entries[:] = []; return UNIT
